@@ -221,6 +221,7 @@ type StructAtom struct {
 	Lin   Poly
 	Shape []Poly
 	Div   bool // integer quotient Lin / Shape[0] (truncated, as Go's / on non-negative operands)
+	Mod   bool // integer remainder Lin % Shape[0]
 }
 
 var structAtoms = map[string]*StructAtom{}
@@ -302,6 +303,8 @@ func (p Poly) Subst(m map[string]Poly) Poly {
 				}
 				if sa.Div {
 					base = IDiv(sa.Lin.Subst(m), sh[0])
+				} else if sa.Mod {
+					base = IMod(sa.Lin.Subst(m), sh[0])
 				} else {
 					base = Unravel(sa.K, sa.Lin.Subst(m), sh)
 				}
@@ -396,10 +399,13 @@ func (sa *StructAtom) eval(env map[string]int64) (int64, bool) {
 	if !ok {
 		return 0, false
 	}
-	if sa.Div {
+	if sa.Div || sa.Mod {
 		d, ok := sa.Shape[0].Eval(env)
 		if !ok || d == 0 {
 			return 0, false
+		}
+		if sa.Mod {
+			return lin % d, true
 		}
 		return lin / d, true
 	}
@@ -431,6 +437,23 @@ func IDiv(p, q Poly) Poly {
 	name := sanitizeAtom("idiv⟨" + p.String() + "|" + q.String() + "⟩")
 	if _, ok := structAtoms[name]; !ok {
 		structAtoms[name] = &StructAtom{Lin: p, Shape: []Poly{q}, Div: true}
+	}
+	return Poly{t: map[string]int64{name: 1}}
+}
+
+// IMod is the integer remainder p % q (Go semantics), kept symbolic unless both are constants.
+func IMod(p, q Poly) Poly {
+	cp, ok1 := p.Const()
+	cq, ok2 := q.Const()
+	if ok1 && ok2 && cq != 0 {
+		return PInt(cp % cq)
+	}
+	if ok2 && (cq == 1 || cq == -1) {
+		return PInt(0)
+	}
+	name := sanitizeAtom("imod⟨" + p.String() + "|" + q.String() + "⟩")
+	if _, ok := structAtoms[name]; !ok {
+		structAtoms[name] = &StructAtom{Lin: p, Shape: []Poly{q}, Mod: true}
 	}
 	return Poly{t: map[string]int64{name: 1}}
 }
